@@ -695,7 +695,7 @@ def _has_alternative(d) -> bool:
 
 def explore(run, *, max_paths: int = 200_000, max_seconds: float = 3600.0, label: str = "",
             stop_on_cex: bool = True, max_cex: int = 3, sample_every: int = 0,
-            validate=None, validate_every: int = 16, validate_max: int = 40) -> ExploreResult:
+            validate=None, validate_every: int = 16, validate_max: int = 40, record: list | None = None) -> ExploreResult:
     """DFS over the decision tree of `run(ctx)`.
 
     `run` returns a list of obligations `(name, z3 BoolRef | bool)`; it may raise PathAbort to
@@ -748,6 +748,12 @@ def explore(run, *, max_paths: int = 200_000, max_seconds: float = 3600.0, label
                     res.cex.append(dict(label=label, obligation=name, inputs=_model_to_py(m, ctx.inputs),
                                         notes={k: (v if isinstance(v, (int, str, bool, list, dict, type(None))) else str(v))
                                                for k, v in ctx.notes.items()}))
+            if record is not None and not res.cex and len(record) < 3000:
+                # history recording (see runner._history_replay): one model of every accepted path, in exploration order
+                try:
+                    record.append(dict(inputs=path_inputs(ctx), notes={k: v for k, v in ctx.notes.items() if isinstance(v, (int, str, bool, list, dict, type(None)))}))
+                except PathAbort:
+                    pass
             # cross-check against the unpatched code: on a sample of the paths whose obligations were all discharged,
             # a model of the path is replayed on the real code, which must not exhibit a violation either
             if (validate is not None and not res.cex and validate_every and res.real_checked < validate_max
